@@ -210,6 +210,17 @@ func accountsIC(c accountsCase) types.ImageConfiguration {
 	return ic
 }
 
+// accountsEdgeFields: an account file with an entry whose password field is empty, `*` or `!`
+func accountsEdgeFields(txt string) bool {
+	for _, l := range strings.Split(txt, "\n") {
+		f := strings.Split(l, ":")
+		if len(f) >= 4 && (f[1] == "" || f[1] == "*" || f[1] == "!") {
+			return true
+		}
+	}
+	return false
+}
+
 // error classes (no messages, no paths)
 func accountsPathErr(err error) string {
 	if err == nil {
@@ -355,6 +366,15 @@ func accountsRunAccounts(c accountsCase) []Step {
 	tags := map[string]struct{}{"kind:accounts": {}, fmt.Sprintf("users:%d", len(c.Users)): {}, fmt.Sprintf("groups:%d", len(c.Groups)): {}}
 	if len(c.Users) >= 8 {
 		tags["accounts:large-list"] = struct{}{}
+	}
+	for _, o := range c.Setup {
+		txt := o.D
+		if o.Hdr != nil {
+			txt = o.Hdr.Content
+		}
+		if (o.P == "etc/passwd" || o.P == "etc/group" || (o.Hdr != nil && strings.HasPrefix(o.Hdr.Name, "etc/"))) && accountsEdgeFields(txt) {
+			tags["accounts:shipped-edge-fields"] = struct{}{}
+		}
 	}
 	if err != nil {
 		cls := "other"
